@@ -2,6 +2,82 @@
 from vlib.common import *
 from vlib import deploysim as ds
 
+def import_stream(ctx, n):
+    """import --apply is create-only: over generated user-home / project assets and config repos in which some of
+    the import destinations already exist (files, or skill directories with any subset of the skill's files - with or
+    without SKILL.md), no existing file of the config repo is modified or removed; and when a destination path exists
+    the command is refused (E_IMPORT_CONFLICT) before anything is written.  JSON and human mode."""
+    import os, json
+    from vlib.impl import Sandbox
+    from vlib import world
+    rng = ctx.rng
+    def tree(root):
+        out = {}
+        for dp, dns, fns in os.walk(root):
+            if '.git' in dp.split(os.sep): continue
+            for fn in fns:
+                q = os.path.join(dp, fn)
+                if os.path.isfile(q) and not os.path.islink(q): out[q[len(root):]] = open(q, 'rb').read()
+        return out
+    for i in range(n):
+        sb = Sandbox('c01i'); sb.git_init_project()
+        try:
+            world.write_config(sb.repo, {'version': 1, 'profiles': {'default': {'include_tags': ['base']}},
+                                          'targets': {'codex': {'mode': 'files', 'scope': 'user', 'options': {}}}, 'modules': []})
+            for k in range(rng.randrange(0, 3)):
+                world.write(os.path.join(sb.home, '.codex/prompts/p%d.md' % k), '# prompt %d\n' % k)
+            skills = {}
+            for k in range(rng.randrange(1, 3)):
+                files = {'SKILL.md': '---\nname: s%d\ndescription: d\n---\nbody\n' % k}
+                for extra in rng.sample(['README.md', 'scripts/run.sh', 'ref/notes.md'], rng.randrange(0, 4)):
+                    files[extra] = 'from home: %s\n' % extra
+                skills['s%d' % k] = files
+                base = os.path.join(sb.home if rng.random() < 0.7 else sb.project, '.codex/skills/s%d' % k)
+                for rel, txt in files.items(): world.write(os.path.join(base, rel), txt)
+            if rng.random() < 0.6: world.write(os.path.join(sb.home, '.claude/commands/c.md'), '---\ndescription: "c"\n---\n\ndo\n')
+            if rng.random() < 0.6: world.write(os.path.join(sb.project, 'AGENTS.md'), '# project rules\n')
+            rc, doc, out, err = sb.cli_json(['import'])
+            if not (doc and doc.get('ok')):
+                ctx.notes.append('import dry run failed: %s' % out[:200]); continue
+            items = [it for it in doc['data']['plan'] if it['op'] == 'create']
+            pre = []
+            for it in rng.sample(items, rng.randrange(0, min(3, len(items)) + 1)):
+                dst = it['dest_path']
+                if it['module_type'] == 'skill':
+                    name = os.path.basename(dst); fl = skills.get(name, {'SKILL.md': 'x'})
+                    chosen = rng.sample(sorted(fl), rng.randrange(0, len(fl) + 1))
+                    if rng.random() < 0.6 and 'SKILL.md' in chosen: chosen.remove('SKILL.md')     # the directory exists, its SKILL.md does not
+                    os.makedirs(dst, exist_ok=True)
+                    for rel in chosen: world.write(os.path.join(dst, rel), 'hand-written in the config repo: %s\n' % rel)
+                    if rng.random() < 0.3: world.write(os.path.join(dst, 'mine.txt'), 'mine\n')
+                    pre.append((dst, 'skill', chosen))
+                elif it['module_type'] == 'instructions':
+                    world.write(os.path.join(dst, rng.choice(['AGENTS.md', 'NOTES.md'])), 'hand-written\n'); pre.append((dst, 'instructions', None))
+                else:
+                    world.write(dst, 'hand-written\n'); pre.append((dst, it['module_type'], None))
+            before = tree(sb.repo)
+            human = rng.random() < 0.3
+            if human:
+                pr = sb.cli(['import', '--apply', '--yes']); rc2 = pr.returncode; doc2 = None; out2 = pr.stdout.decode('utf-8', 'replace') + pr.stderr.decode('utf-8', 'replace')
+            else:
+                rc2, doc2, out2, err2 = sb.cli_json(['import', '--apply', '--yes'])
+            after = tree(sb.repo)
+            rec = {'stream': 'import', 'index': i, 'human': human, 'preexisting': [(d[len(sb.repo):], t, c) for d, t, c in pre],
+                   'plan': [(it['module_type'], it['dest_path'][len(sb.repo):]) for it in items], 'exit': rc2, 'out': out2[:600]}
+            ctx.count('import', key=(human, len(items), tuple(sorted((t, tuple(c) if c is not None else None) for _, t, c in pre)), rc2),
+                      nontrivial=bool(pre), tags=['preexisting:%d' % len(pre), 'exit:%s' % rc2, 'human' if human else 'json'])
+            changed = sorted(q for q in before if after.get(q) != before[q] and q != '/agentpack.yaml')   # the manifest itself gains the new modules
+            if changed:
+                ctx.violation('import --apply modified or removed an existing file of the config repo: %s' % changed[:3], dict(rec, changed=changed))
+            if pre:
+                refused = (rc2 != 0) and (human or (doc2 is not None and not doc2.get('ok') and doc2['errors'][0]['code'] == 'E_IMPORT_CONFLICT'))
+                if not refused:
+                    ctx.violation('an import destination already existed but import --apply was not refused with E_IMPORT_CONFLICT', rec)
+                elif after != before:
+                    ctx.violation('import --apply was refused but wrote to the config repo', dict(rec, new=sorted(set(after) - set(before))[:5]))
+        finally:
+            sb.close()
+
 def run(ctx):
     quick = ctx.tier == 'quick'
     ctx.rule = ('cli_deploy: histories of (config edit, user edit incl. colliding files and manifest corruption, deploy through one of '
@@ -19,4 +95,5 @@ def run(ctx):
                        plan_script=ds.hist_after_empty_rollback, setup=ds.setup_two_roots)
     ds.run_cli_stream(ctx, 6 if quick else 100, 3, props={'C01'}, stream='symlinked_outputs', script=ds.script_symlinked_outputs, setup=ds.setup_two_roots)
     ds.run_cli_stream(ctx, 6 if quick else 100, 4, props={'C01'}, stream='case_rename', script=ds.script_case_rename, setup=ds.setup_all_targets)
+    import_stream(ctx, 24 if quick else 400)
     ds.run_lib_stream(ctx, 80 if quick else 1500, props={'C01'})
